@@ -162,6 +162,84 @@ def i_materialise(I, args, ins):
     return tag_bytes(I, ('serialize', resp), 'docbytes')
 
 
+@intrinsic('verifMaterialiseLogout')
+def i_materialise_logout(I, args, ins):
+    ctx = I.ctx
+    lr = ctx.load(ctx.force(args[0]))
+    sign = ctx.concretize(args[1], 0, 2, 'sign')
+    rootless = args[2]
+    if rootless is True:
+        return tag_bytes(I, ('serialize', None), 'docbytes')
+    el = new_el(I, 'samlp:LogoutResponse')
+    set_attr(I, el, 'xmlns:saml', NS_SAML)
+    set_attr(I, el, 'xmlns:samlp', NS_SAMLP)
+    bind_value(I, el, SAML + 'LogoutResponse', lr)
+    if sign:
+        add_child(I, el, make_signature(I, el, (0, sign - 1)))
+    return tag_bytes(I, ('serialize', el), 'docbytes')
+
+
+@intrinsic('verifDeflate')
+def i_deflate(I, args, ins):
+    info = bytes_info(I, args[0])
+    return tag_bytes(I, ('deflate', info), 'deflated')
+
+
+@stub('compress/flate.NewReader')
+def flate_newreader(I, args, ins):
+    from .base import reader_content
+    ctx = I.ctx
+    kind, c = reader_content(I, args[0])
+    p = ctx.alloc(StructV([]), 'flate.reader')
+    src = None
+    if kind == 'bytes':
+        src = bytes_info(I, c)
+    elif kind == 'string':
+        src = xmlstubs.string_info(I, c)
+    ctx.ghost.setdefault('flate', {})[p.cell] = src
+    return Iface('*verif.flateReader', p)
+
+
+def _flate_read(I, recv, args, ins):
+    """Read on an inflater: any 0 <= n <= len(p), any error (contract stub)."""
+    ctx = I.ctx
+    n = ctx.fresh_int('flate.n')
+    ctx.add_inv(z3.And(n >= 0, n <= zint(I.length(args[0]))))
+    if ctx.choose(2, 'flate-err') == 1:
+        return TupleV((n, ctx.new_error('flate')))
+    return TupleV((n, None))
+
+
+INVOKE_STUBS[('*verif.flateReader', 'Read')] = _flate_read
+INVOKE_STUBS[('*verif.flateReader', 'Close')] = lambda I, recv, args, ins: None
+from ..core import OPAQUE_IMPLEMENTS
+OPAQUE_IMPLEMENTS['*verif.flateReader'] = {'io.ReadCloser', 'io.Reader', 'io.Closer'}
+
+
+def _readall_safer_flate(I, c, ins):
+    """io.ReadAll(newSaferFlateReader(r)): the inflated bytes when r carries deflate(x), else failure."""
+    ctx = I.ctx
+    if not isinstance(c, Ptr):
+        return None
+    st = ctx.load(c)
+    if not isinstance(st, StructV) or len(st) != 2:
+        return None
+    inner = ctx.force(st[0])
+    if not (isinstance(inner, Iface) and inner.dyn == '*verif.flateReader'):
+        return None
+    src = ctx.ghost.get('flate', {}).get(inner.val.cell)
+    if src is not None and src[0] == 'deflate' and src[1] is not None:
+        # inflating what the harness deflated gives the (small) document back
+        return TupleV((tag_bytes(I, src[1], 'inflated'), None))
+    if ctx.choose(2, 'inflate-err') == 1:
+        return TupleV((NIL_SLICE, ctx.new_error('flate', msg='flate: corrupt input or limit exceeded')))
+    return TupleV((ctx.fresh('[]byte', 'inflated'), None))
+
+
+from . import base as _base
+_base.READALL_HOOKS.append(_readall_safer_flate)
+
+
 # ------------------------------------------------------------------ etree document serialise / parse
 
 @stub('(*' + ET + 'Document).WriteToBytes')
